@@ -328,7 +328,7 @@ func ruleUSER1(c *Ctx) {
 			what := ""
 			if cf != nil {
 				sig := cf.Type().(*types.Signature)
-				if sig.Recv() != nil && types.IsInterface(sig.Recv().Type()) && (cf.Name() == "MarshalJSON" || cf.Name() == "MarshalText") {
+				if sig.Recv() != nil && types.IsInterface(sig.Recv().Type()) && (cf.Name() == "MarshalJSON" || cf.Name() == "MarshalText" || cf.Name() == "AppendText") {
 					isUser, what = true, cf.Name()
 				}
 			} else if sig, _ := info.TypeOf(call.Fun).Underlying().(*types.Signature); sig != nil {
@@ -438,6 +438,9 @@ func ruleUSER1(c *Ctx) {
 			s := info.Selections[sel]
 			if s == nil || !types.IsInterface(s.Recv()) {
 				return true
+			}
+			if outer, ok := p.Parent(f.File, sel).(*ast.CallExpr); ok && ast.Unparen(outer.Fun) == ast.Expr(sel) {
+				return true // a call: its result is followed like that of MarshalText above
 			}
 			n++
 			okUse := false
